@@ -263,6 +263,39 @@ def check_operators(ctx, rng, n):
         ctx.count("operators")
 
 
+def check_history(ctx, rng, n):
+    """the same operand objects divided again after being updated in place (through their raw storage, or through an
+    explicit output target): every division must be about the operands' current values - no result may be remembered"""
+    for _ in range(n):
+        a = gen.materialize(gen_poly_struct(rng, [0, 1], gen.choice(rng, [(), (2,)]), 3, 3))
+        b = gen.materialize(gen_poly_struct(rng, [0, 1], (), 2, 1, lead_ok=True))
+        ctx.evaluations += 1
+        ctx.count("history")
+        try:
+            first = numpoly.poly_divmod(a, b)
+            key = a.keys[int(rng.integers(len(a.keys)))]
+            how = gen.choice(rng, ["values", "out", "divisor"])
+            if how == "values":
+                a.values[key] = a.values[key] * 2 + 1           # in-place update of the dividend's storage
+            elif how == "out":
+                numpoly.multiply(a, 3, out=a)                   # explicit output target = the dividend itself
+            else:
+                b.values[b.keys[0]] = b.values[b.keys[0]] * 2 + 3     # ... or of the divisor
+            again = numpoly.poly_divmod(a, b)
+            fresh = numpoly.poly_divmod(numpoly.polynomial(a.copy()), numpoly.polynomial(b.copy()))
+            ops = [("poly_divmod", again), ("operators", (a / b, a % b)), ("divmod()", divmod(a, b))]
+        except Exception as err:  # noqa: BLE001
+            ctx.fail({"kind": "history", "a": str(a), "b": str(b)}, f"division after an in-place update raised {type(err).__name__}: {str(err)[:120]}", ["history", "raises"])
+            continue
+        for label, (q, r) in ops:
+            sq, sr, fq, fr = any_to_struct(q), any_to_struct(r), any_to_struct(fresh[0]), any_to_struct(fresh[1])
+            if den_of_struct(sq) != den_of_struct(fq) or den_of_struct(sr) != den_of_struct(fr):
+                ctx.fail({"kind": "history", "a": str(a), "b": str(b), "update": how},
+                         f"{label} after an in-place update ({how}) returns ({q}, {r}); dividing fresh copies of the same operands gives ({fresh[0]}, {fresh[1]})",
+                         ["history", "value"])
+                break
+
+
 def corpus():
     one = lambda names, terms: {"names": names, "shape": [], "dtype": "float64", "kind": "float", "terms": terms, "as": "poly"}
     return [{"id": "corpus-D3", "kind": "c05", "mode": "incomparable", "a": one([0, 1], [[[2, 1], [1]]]),
@@ -293,11 +326,17 @@ def run(ctx):
         if out is not None:
             check_model(ctx, c, out, next(answers))
     check_operators(ctx, ctx.rng("operators"), 40 if ctx.quick else 400)
+    check_history(ctx, ctx.rng("history"), 30 if ctx.quick else 300)
     ctx.sample({"dividend": cases[0]["a"], "divisor": cases[0]["b"], "note": "witness of the former 2-cycle (D3)"})
     ctx.extra["argument_monitor"] = {"calls": monitor.calls, "mutations": monitor.events[:5]}
 
 
 def replay(ctx, case):
+    if case.get("kind") == "history":
+        n0 = len(ctx.failures)
+        from ..core import make_rng
+        check_history(ctx, make_rng(ctx.seed, "C05/history"), 300)
+        return ctx.failures[n0]["what"] if len(ctx.failures) > n0 else None
     n = len(ctx.failures)
     out = check(ctx, case)
     if out is not None:
